@@ -54,6 +54,9 @@ pub enum Act {
     ReadStorm,
     /// STORM transient read errors of this kind in a row (each is a result of its own)
     FailStorm(u8),
+    /// async only: the future returned Pending although the transport was not asked for anything and no
+    /// scripted "not ready" answer was given (a yield point of its own): poll it again
+    Resume,
     /// async only: 30 s pass on the (paused) clock while the connection is suspended; never more
     /// than 60 s in a row without a transport event, so that the documented 90 s read timeout
     /// cannot fire and the expected effect is: none
@@ -65,7 +68,7 @@ impl Act {
         match self {
             Act::Deliver(_) | Act::ReadFail(_) | Act::Eof | Act::ReadPending | Act::ReadStorm | Act::FailStorm(_) => Some(Side::Read),
             Act::Accept(_) | Act::WritePending | Act::WriteStorm => Some(Side::Write),
-            Act::Cancel | Act::Tick => None,
+            Act::Cancel | Act::Tick | Act::Resume => None,
         }
     }
 }
@@ -104,6 +107,8 @@ pub struct Inner {
     pub storm_left: (u32, u32),
     /// transient read errors still owed by the error storm in progress, and their kind
     pub fail_storm_left: (u32, u8),
+    /// a scripted "not ready" answer was given since the flag was last cleared
+    pub scripted_pending: bool,
 }
 
 impl Inner {
@@ -112,6 +117,7 @@ impl Inner {
         self.read_caps.push(buf_len);
         if self.storm_left.0 > 0 {
             self.storm_left.0 -= 1;
+            self.scripted_pending = true;
             return Some(Err(io::Error::new(io::ErrorKind::Other, "verif: pending")));
         }
         if self.fail_storm_left.0 > 0 {
@@ -137,12 +143,16 @@ impl Inner {
                     self.eof_delivered = true;
                     Some(Ok(vec![]))
                 },
-                Act::ReadPending => Some(Err(io::Error::new(io::ErrorKind::Other, "verif: pending"))),
+                Act::ReadPending => {
+                    self.scripted_pending = true;
+                    Some(Err(io::Error::new(io::ErrorKind::Other, "verif: pending")))
+                },
                 Act::FailStorm(k) => {
                     self.fail_storm_left = (STORM - 1, k);
                     Some(Err(io::Error::new(fail_kind(k), "verif: injected transient error")))
                 },
                 Act::ReadStorm => {
+                    self.scripted_pending = true;
                     self.storm_left.0 = STORM - 1;
                     Some(Err(io::Error::new(io::ErrorKind::Other, "verif: pending")))
                 },
@@ -160,6 +170,7 @@ impl Inner {
         }
         if self.storm_left.1 > 0 {
             self.storm_left.1 -= 1;
+            self.scripted_pending = true;
             return Some(Err(io::Error::new(io::ErrorKind::Other, "verif: pending")));
         }
         match self.queue.front() {
@@ -174,8 +185,12 @@ impl Inner {
                     self.accept(buf, n);
                     Some(Ok(n))
                 },
-                Act::WritePending => Some(Err(io::Error::new(io::ErrorKind::Other, "verif: pending"))),
+                Act::WritePending => {
+                    self.scripted_pending = true;
+                    Some(Err(io::Error::new(io::ErrorKind::Other, "verif: pending")))
+                },
                 Act::WriteStorm => {
+                    self.scripted_pending = true;
                     self.storm_left.1 = STORM - 1;
                     Some(Err(io::Error::new(io::ErrorKind::Other, "verif: pending")))
                 },
@@ -296,6 +311,8 @@ pub struct RunResult {
     pub pos: usize,
     pub finished: bool,
     pub calls_started: usize,
+    /// the run stopped at a yield point of the future's own (no transport request pending)
+    pub yielded: bool,
     /// one entry per started driver call: (is_read, cancelled)
     pub call_log: Vec<(bool, bool)>,
     /// Tick answers consumed by the driver call in progress
@@ -387,7 +404,7 @@ fn run_blocking(inst: &Instance, hist: &[Act], inner: Arc<Mutex<Inner>>) -> RunR
     {
         let mut w = inner.lock().unwrap();
         for a in hist {
-            if matches!(a, Act::Cancel | Act::ReadPending | Act::ReadStorm | Act::Tick) {
+            if matches!(a, Act::Cancel | Act::ReadPending | Act::ReadStorm | Act::Tick | Act::Resume) {
                 out.harness_error = Some(format!("{a:?} is not a blocking answer"));
                 return out;
             }
@@ -524,13 +541,38 @@ fn run_tokio(inst: &Instance, hist: &[Act], inner: Arc<Mutex<Inner>>) -> RunResu
             };
             let mut task = tokio_test::task::spawn(fut);
             loop {
+                inner.lock().unwrap().scripted_pending = false;
                 match task.poll() {
                     Poll::Ready(s) => break Done::Result(s),
                     Poll::Pending => {
-                        let asked = inner.lock().unwrap().asked;
+                        let (asked, scripted) = {
+                            let w = inner.lock().unwrap();
+                            (w.asked, w.scripted_pending)
+                        };
                         // explicit Pending answers leave `asked` unset: poll again
-                        if asked.is_none() {
+                        if asked.is_none() && scripted {
                             continue;
+                        }
+                        if asked.is_none() {
+                            // a suspension point of the future's own: the caller may resume or drop it here
+                            match hist.get(next) {
+                                None => {
+                                    out.yielded = true;
+                                    break Done::Boundary;
+                                },
+                                Some(Act::Resume) => {
+                                    next += 1;
+                                    continue;
+                                },
+                                Some(Act::Cancel) => {
+                                    next += 1;
+                                    break Done::Cancelled;
+                                },
+                                Some(a) => {
+                                    inner.lock().unwrap().harness_error = Some(format!("history offers {a:?} at a yield point"));
+                                    break Done::Boundary;
+                                },
+                            }
                         }
                         match hist.get(next) {
                             None => break Done::Boundary,
